@@ -473,7 +473,9 @@ func (c *Conn) ExecRollbackTx(tx Tx) (res TxResult, err error) {
 
 	// Open the journal and write the first header.
 	if c.jf == nil {
-		if c.JournalMode != Delete && c.M.Exists(c.journalName()) {
+		// SQLite opens the journal with O_CREAT but without O_EXCL: an existing
+		// file (a persistent or truncated journal, whatever the current mode) is reused
+		if c.M.Exists(c.journalName()) {
 			c.op("open journal")
 			if c.jf, err = c.M.Open(c.Owner, c.journalName()); err != nil {
 				return res, opErr("open journal", err)
